@@ -1159,7 +1159,11 @@ def _assemble(repo, spec, rows=None, canary=None, opts=None):
     srcs = r9_desugar_iterators(srcs, stats)
     r8_done = {}
     if opts.get('known_units'):
-        srcs, r8_done = r8_inline_new_helpers(srcs, opts['known_units'], stats)
+        # one helper per module per pass (keeps the offsets simple): repeat until nothing is left to inline
+        for _pass in range(8):
+            srcs, d8 = r8_inline_new_helpers(srcs, set(opts['known_units']) | set(r8_done), stats)
+            if not d8: break
+            r8_done.update(d8)
         for pth, n in r8_done.items():
             spec.external[pth] = 'R8: new helper without a contract; pure and straight-line, so its body is verified inlined at its %d call site(s) instead' % n
     stats.update(external_derive=0, external_body=0, external=0, dropped_use=0, dropped_test_mod=0,
